@@ -224,7 +224,7 @@ check('C20',
       'and fails for an unrelated type; + 1, = xs:T(literal), max() use the typed value; list items and nilled elements. 45 structural paths select the same nodes with and '
       'without the schema. Every history of up to 3 (6) contexts bound to schema A / schema B / no schema on ONE prebuilt node tree: after each step with a schema the typed '
       'values are those of that schema.',
-      'reference mc/models/atomic.py, mc/models/seqtypes.py and the xmlschema decoder; QName / IDREF / ENTITY typed content and xsi:type on xml.etree (no prefix map) are outside '
+      'reference mc/models/atomic.py, mc/models/seqtypes.py and the xmlschema decoder; IDREF / ENTITY typed content and xsi:type on xml.etree (no prefix map) are outside (xs:QName content has its own unit) '
       'the generated space; what a schema-less context sees on a tree typed by an earlier context is not judged',
       'DESIGN.md section 3 C20 and section 10')
 
